@@ -19,6 +19,7 @@ EXPLANATION = ("Lockset analysis of the live-listener list `StreamsManagerBase::
 EXPLANATION += ' (R17.7) the live list is only ever rebuilt as a whole (sorted, dense, sentinel-terminated), once per id take / release (shared with C10 R10.2): an in-place append / truncate loses the order the rebuild guarantees and reshuffles entries a concurrent fan-out already passed.'
 EXPLANATION += " R17.7 also carries C10's R10.7 (cursor discipline of the rebuild); (R17.8) C04's poll / waker protocol: a waker registration is never skipped (wakers_lock is held during every listener removal)."
 EXPLANATION += " (R17.9) executor / stream-id pairing (C12 R12.10) and C04's wake-site rules on the log channel (wakes addressed by the id read from the live list, never by list position)."
+EXPLANATION += " R17.7 also carries R10.7's padding-reaches-the-end obligation."
 ASSUMPTIONS = ["the race itself (a sender observing the list half-rewritten) is reported as findings, not proved absent: no small fix exists (senders would need the lock or an RCU-style list)",
                "per-listener ring correctness under concurrency is C01/C02 territory"]
 
